@@ -47,7 +47,7 @@ func c11Client(servers []scriptedServer, banned map[int]bool, energy *string) (*
 		e.Banned = banned[i]
 		m[s.Key.Pub] = e
 	}
-	cfg := cliConfig{Key: key("c11/client"), ShortID: 5, GCA: key("G1").Pub, HistoryOffset: 0, Servers: m, Energy: energy}
+	cfg := cliConfig{Key: key("c11/client"), ShortID: 0, GCA: key("G1").Pub, HistoryOffset: 3, Servers: m, Energy: energy}
 	w, err := newClientWorld(cfg)
 	return w, hub, err
 }
